@@ -687,6 +687,42 @@ func wrappedVectors(emit func(string)) {
 	}
 }
 
+// doubleTerminators: a construct whose FIRST terminator is an unusual spelling (NULs inside the
+// comment end, a decoy byte directly in front of it) followed at a short distance by a plain
+// terminator of the same construct, at several depths of the input: a scanner that jumps to the
+// plain terminator, or that checks the bytes in front of it with the wrong base offset, ends the
+// construct at the wrong place.
+func doubleTerminators(emit func(string)) {
+	type cons struct {
+		open         []string
+		first, plain []string
+	}
+	cs := []cons{
+		{[]string{"<!--", "<!--x", "<!-- a "}, []string{"-\x00->", "-\x00!>", "-\x00\x00->", "-\x00\x00\x00!>", "--!>", "-!>", "-->", "-\x00-", "--\x00>", "-\x00>"}, []string{"-->", "--!>", "->", "-!>"}},
+		{[]string{"<![CDATA[", "<![CDATA[x"}, []string{"]]>", "]]]>", "]>]]>", "]] >", "]]\x00>"}, []string{"]]>"}},
+		{[]string{"<%", "<%x"}, []string{"%>", "%%>", "% >", "%\x00>"}, []string{"%>"}},
+		{[]string{"<?", "<?x", "<!", "<!x", "</ ", "</1"}, []string{">", "\x00>", "->", "?>"}, []string{">", "-->"}},
+	}
+	mids := []string{"", "x", "-", "<script>", "\x00", " "}
+	pres := []string{"", "x>", "<p>hello</p>", "0123456789"}
+	tails := []string{"", "<script>alert(1)</script>", "-->"}
+	for _, c := range cs {
+		for _, o := range c.open {
+			for _, f := range c.first {
+				for _, m := range mids {
+					for _, pl := range c.plain {
+						for _, p := range pres {
+							for _, t := range tails {
+								emit(p + o + f + m + pl + t)
+							}
+						}
+					}
+				}
+			}
+		}
+	}
+}
+
 func htmlAll(c *corpus, r *rng, tier string, scale int) *inputSet {
 	s := newInputSet()
 	for _, x := range c.kept {
@@ -701,6 +737,7 @@ func htmlAll(c *corpus, r *rng, tier string, scale int) *inputSet {
 	}
 	exhaustive(htmlAlphabet, depth, func(x string) { s.add("exhaustive", x) })
 	wrappedVectors(func(x string) { s.add("wrapped-vectors-with-tails", x) })
+	doubleTerminators(func(x string) { s.add("double-terminators", x) })
 	everyByteIn(htmlByteForms, func(x string) { s.add("every-byte-in-position", x) })
 	for _, w := range nearMisses(c.logic) {
 		for _, f := range []string{"<%s>", "<%s ", "<%s/", "<a %s=x>", "<a href=%s:x>", "<a href='%s:x'>", "<a href=\" %sscript:x\">", "<!%s x>", "<?%s x>", "<![%s", "<a on%s=x>", "<a %s:href=x>", "<!--[%s x]>", "%s"} {
